@@ -275,7 +275,11 @@ class DimArray(AbstractDimArray, OpMixin, GetSetDelAttrMixin):
             axes = dim_array.axes
 
         elif values is not None:
-            values = np.array(values, copy=copy, dtype=dtype)
+            if copy:
+                values = np.array(values, dtype=dtype)
+            else:
+                # np.array(..., copy=False) raises under NumPy 2 whenever a copy is needed
+                values = np.asarray(values, dtype=dtype)
 
         #
         # Initialize the axes
